@@ -15,6 +15,9 @@ use crate::run::{clear_case, finish, par_shards, set_case, start_watchdog, Ctx, 
 
 pub const COND_SYMS: &[&str] = &["A", "B", "and ", "or ", "not ", "(", ")", ",", "==", "<", ">=", "-", ".", "1", " ", "é", "all(", "of(", "int(", "str(", "not("];
 pub const PAT_SYMS: &[&str] = &["a", "i", "*", "?", "\"", "'", ">", "<", "=", ".", "1", "-", "é", "(", "[", "\\"];
+/// regular-expression syntax: what a `?` pattern hands to the regex compiler, alone and (for lists)
+/// again as a member of a regex set
+pub const REGEX_SYMS: &[&str] = &["a", "\\", "0", "1", "{", "}", "(", ")", "[", "]", "|", "*", "+", "?", ".", "^", "$", "w", "x", ","];
 pub const KEY_SYMS: &[&str] = &["a", " ", ".", "[", "]", "0", "(", ")", ",", "all(", "of(", "not(", "int(", "str(", "é", "#"];
 
 #[derive(Debug, Clone, PartialEq)]
@@ -115,6 +118,24 @@ pub fn exec_layer(layer: &str, input: &str) -> Outcome {
             for v in [scalar, list, quant, cast] {
                 let vv = v.clone();
                 outs.push(eng::guard(move || parse_identifier(&vv).map(|_| ()).map_err(|e| format!("{}", e))));
+                outs.push(load_value_outcome(rule_with_identifier(v)));
+            }
+            merge(outs)
+        }
+        "regex" => {
+            // the text after `?`: alone, with the i prefix, and as a member of lists of regexes (which
+            // the loader compiles a second time, as a set), also under a quantifier and a cast
+            let re = |p: &str, t: &str| Y::String(format!("{}?{}", p, t));
+            let mut outs = vec![];
+            for v in [
+                one_entry(Y::String("k".into()), re("", input)),
+                one_entry(Y::String("k".into()), re("i", input)),
+                one_entry(Y::String("k".into()), Y::Sequence(vec![re("", input), re("", "b+")])),
+                one_entry(Y::String("k".into()), Y::Sequence(vec![re("i", "b+"), re("i", input)])),
+                one_entry(Y::String("all(k)".into()), Y::Sequence(vec![re("", input), re("", "b+"), Y::String("*c*".into())])),
+                one_entry(Y::String("str(k)".into()), Y::Sequence(vec![re("", input), re("", input), re("i", input)])),
+                one_entry(Y::String("n".into()), one_entry(Y::String("of(k, 1)".into()), Y::Sequence(vec![re("i", input), re("i", "b+")]))),
+            ] {
                 outs.push(load_value_outcome(rule_with_identifier(v)));
             }
             merge(outs)
@@ -390,12 +411,13 @@ pub fn child(ctx: &Ctx) -> i32 {
     let maxlen = ctx.size(4, 5);
     let stripes = 16usize;
     let texts = corpus();
-    let nshards = stripes * 3 + ctx.size(32, 128);
+    let nshards = stripes * 4 + ctx.size(32, 128);
     let rep = par_shards(ctx, nshards, |shard| {
         let mut rep = Report::new();
-        if shard < stripes * 3 {
-            let (layer, syms) = [("cond", COND_SYMS), ("pattern", PAT_SYMS), ("key", KEY_SYMS)][shard / stripes];
-            for len in 0..=maxlen {
+        if shard < stripes * 4 {
+            let (layer, syms) = [("cond", COND_SYMS), ("pattern", PAT_SYMS), ("key", KEY_SYMS), ("regex", REGEX_SYMS)][shard / stripes];
+            // the regex layer compiles every input nine times: one symbol less
+            for len in 0..=(if layer == "regex" { maxlen - 1 } else { maxlen }) {
                 enumerate(&mut rep, ctx, layer, syms, len, shard % stripes, stripes);
             }
             if shard % stripes == 0 {
@@ -411,7 +433,16 @@ pub fn child(ctx: &Ctx) -> i32 {
                     rep.truncated = true;
                     break;
                 }
-                match rng.below(6) {
+                match rng.below(7) {
+                    6 => {
+                        // longer regex texts: escapes with several digits, counted repetitions
+                        let t = if rng.chance(30) {
+                            format!("{}{}{}", rng.pick_str(&["\\", "\\x", "\\u", "\\p", "\\P{", "(?", "[[:", "a{", "\\w{", "(a|b){", "\\pL{", ".{"]), rng.pick_str(&["0", "1", "033", "111", "7f", "{41}", "L", "Lu}", "i)", "alpha:]]", "2,3}", "10}", "100}", "1000}", "99999}", "1,}", ",1}"]), random_string(&mut rng, REGEX_SYMS, 3))
+                        } else {
+                            random_string(&mut rng, REGEX_SYMS, 9)
+                        };
+                        record(&mut rep, "regex", &t)
+                    }
                     0 => record(&mut rep, "cond", &random_string(&mut rng, COND_SYMS, 16)),
                     1 => record(&mut rep, "pattern", &random_string(&mut rng, PAT_SYMS, 10)),
                     2 => record(&mut rep, "key", &random_string(&mut rng, KEY_SYMS, 8)),
@@ -473,8 +504,25 @@ pub fn child(ctx: &Ctx) -> i32 {
         record(&mut rep, "pattern", &"*".repeat(d));
         record(&mut rep, "pattern", &"i".repeat(d));
     }
+    // regexes near the compiler's size limit: a member that compiles alone and a list of such
+    // members, which is compiled again as one set
+    for unit in ["\\w", "\\pL", "[a-z0-9]", "(ab|cd|ef)"] {
+        for n in [20usize, 50, 100, 200, 300, 400, 1000, 3000] {
+            if ctx.quick() && n > 400 {
+                continue;
+            }
+            for members in [1usize, 2, 3, 8] {
+                for pre in ["", "i"] {
+                    let list: Vec<String> = (0..members).map(|j| format!("    - '{}?{}{{{}}}{}'\n", pre, unit, n, j)).collect();
+                    let t = format!("detection:\n  A:\n    k:\n{}  condition: A\ntrue_positives: []\ntrue_negatives: []\n", list.concat());
+                    record(&mut rep, "yaml-text", &t);
+                    rep.count("big_regex_inputs");
+                }
+            }
+        }
+    }
     crate::regress::replay_witnesses(ctx, &mut rep);
-    for l in ["cond", "pattern", "key", "yaml-value", "yaml-text"] {
+    for l in ["cond", "pattern", "key", "regex", "yaml-value", "yaml-text"] {
         if rep.get(&format!("{}.accepted", l)) == 0 {
             rep.inconclusive.push(format!("no {} input was accepted by the loader: the workload never got past that layer", l));
         }
@@ -483,7 +531,7 @@ pub fn child(ctx: &Ctx) -> i32 {
         ctx,
         rep,
         Meta {
-            rule: format!("complete enumeration of every sequence of <= {} symbols over layer-specific alphabets (condition: {} symbols incl. keywords with their delimiters, a multi-byte letter, lone '-', '.'; pattern: {} symbols; mapping key: {} symbols), each fed to the layer directly (tokenise / into_identifier / parse_identifier, feature core) and through a full rule load; a fixed list of {} degenerate strings; random longer strings with multi-byte and exotic whitespace characters; rule-shaped YAML values with arbitrary YAML kinds in every position (through from_value and from_str); byte-level mutations of the repository's rule files. Oracle: panic monitor (catch_unwind + panic hook) and a watchdog for hangs, in a child process. non-trivial = input that reached the engine's own layer, distinct by (layer, outcome class, input)", maxlen, COND_SYMS.len(), PAT_SYMS.len(), KEY_SYMS.len(), HOSTILE_STRS.len()),
+            rule: format!("complete enumeration of every sequence of <= {} symbols over layer-specific alphabets (condition: {} symbols incl. keywords with their delimiters, a multi-byte letter, lone '-', '.'; pattern: {} symbols; mapping key: {} symbols; regular expression after `?`: 20 symbols, one symbol shorter, each text loaded alone, i-prefixed and as a member of five kinds of list), each fed to the layer directly (tokenise / into_identifier / parse_identifier, feature core) and through a full rule load; a fixed list of {} degenerate strings; random longer strings with multi-byte and exotic whitespace characters; rule-shaped YAML values with arbitrary YAML kinds in every position (through from_value and from_str); byte-level mutations of the repository's rule files; regexes of 20..3000 repetitions of a class, alone and in lists of 2, 3, 8 (the list is compiled again as one set). Oracle: panic monitor (catch_unwind + panic hook) and a watchdog for hangs, in a child process. non-trivial = input that reached the engine's own layer, distinct by (layer, outcome class, input)", maxlen, COND_SYMS.len(), PAT_SYMS.len(), KEY_SYMS.len(), HOSTILE_STRS.len()),
             exhaustive: true,
             assumptions: vec!["nesting depth bounded (<= 8 here), native stack exhaustion out of scope as the property says".into(), "a hang is reported only after the same input also exceeds 120 s alone in a fresh process".into()],
             min_nontrivial: 1000,
